@@ -154,5 +154,6 @@ func main() {
 		"the server registers the codecs a generated server registers for the media types the description names",
 		"the oracle never depends on Go map iteration order inside the client (multipart part order, path substitution order) - it compares decoded values only",
 	)
-	r.Finish("every case of every family listed in cases_per_family (product of the stated axes; each case = one full round trip client.Runtime.Submit -> wire -> Context.APIHandler -> wire -> response reader on the real code, one evaluation); non-trivial = the case is inside the guarantee and the operation's handler was invoked (distinct by construction: no family repeats a (description, values, response) triple and the families differ in description or values)", true)
+	r.Set("axes_per_family", familyAxes)
+	r.Finish("every case of every family listed in cases_per_family (each family is the full product of the axes stated in axes_per_family; a case = one description + supplied values + handler outcome, executed as one full round trip client.Runtime.Submit -> wire -> Context.APIHandler -> wire -> response reader on the real code = one evaluation); non-trivial = the case is inside the guarantee and the operation's handler was invoked; distinct: a digest of every executed case is kept and a case met a second time is skipped, not counted (duplicate_cases_skipped)", true)
 }
